@@ -374,7 +374,8 @@ func runWorker(b *build, req Request, gomaxprocs int, timeout time.Duration) (*R
 
 func tail(s string, n int) string {
 	if len(s) > n {
-		return "..." + s[len(s)-n:]
+		h := n / 2
+		return s[:h] + "\n...\n" + s[len(s)-h:]
 	}
 	return s
 }
